@@ -59,6 +59,12 @@ Del(s) ==
   /\ tab' = IF Canon(s) \in Pats THEN [tab EXCEPT ![Canon(s)] = None] ELSE tab
   /\ hist' = Append(hist, [op |-> "del", pattern |-> s, url |-> <<>>, ka |-> FALSE, table |-> Image(tab'), disk |-> Image(disk')])
 
+\* an edit that the table refuses (a target URL that does not parse) is not an edit: nothing changes, also when the
+\* pattern exists already (an update is validated before it is applied)
+SaveBad(s, ka) ==
+  /\ disk' = disk /\ tab' = tab
+  /\ hist' = Append(hist, [op |-> "savebad", pattern |-> s, url |-> <<>>, ka |-> ka, table |-> Image(tab'), disk |-> Image(disk')])
+
 (* "after a flush a restarted server loads exactly that table" (C18)          *)
 Flush ==
   /\ disk' = tab /\ tab' = tab
@@ -71,6 +77,7 @@ Init == tab = [k \in Pats |-> None] /\ disk = tab /\ hist = <<>>
 Next == /\ Len(hist) < MaxHist
         /\ \/ \E s \in Spellings, u \in Urls, ka \in KAs : Save(s, u, ka)
            \/ \E s \in Spellings : Del(s)
+           \/ \E s \in Spellings : SaveBad(s, TRUE)
            \/ Flush
            \/ Restart
 
